@@ -50,6 +50,7 @@ Inductive prim :=
 | PFromBits (k:fk) | PToBits (k:fk)
 | PMk | PProj (i:nat) | PUpd (i:nat) | PIdx | PLen | PSplat (n:nat)
 | PSome | PNone | PUnwrap | PSelect
+| PMapN (p:prim) | PReduce (k:fk) (o:fop2) (init:Z) | PSwizzle (idx:list nat) | PAny | PAll | PBitmask
 | PLanewise2 (o:fop2) | PLanewise1 (o:fop1) | PLanewise3 (o:fop3) | PLanewiseCmp (c:fcmp) | PCmpUnord                  (* _mm_add_ps etc: lane-wise f32 ops on 4-lane registers *)
 | PShuffle (imm:Z) | PMoveHL | PAddSS | PCvtSS | PSet1 | PMoveMask | PCvttEpi32 | PCvtEpi32Ps | PCmpLtEpi32 | PTake (n:nat) | PPad (n:nat).
 
@@ -96,8 +97,29 @@ Fixpoint sel_val (c:bool) (a b:val) {struct a} : val :=
   | _, _ => if c then a else b end.
 (* integer primitives either return a value or panic (None) *)
 Definition ores {A} (o : option A) : res A := match o with Some a => Ok a | None => Panic end.
-Definition eval_prim (p:prim) (args:list val) : res val :=
+(* lane-wise application of a scalar primitive to equally long tuples (core::simd vectors and masks) *)
+Fixpoint transpose_args (args : list val) : option (list (list val)) :=
+  match args with
+  | [] => Some []
+  | VT l :: rest =>
+      match rest with
+      | [] => Some (map (fun x => [x]) l)
+      | _ => match transpose_args rest with Some cols => if Nat.eqb (List.length cols) (List.length l) then Some (map (fun xc => fst xc :: snd xc) (combine l cols)) else None | None => None end
+      end
+  | _ => None end.
+Fixpoint mapres {A B} (f : A -> res B) (l : list A) : res (list B) := match l with [] => Ok [] | x :: t => y <- f x ;; ys <- mapres f t ;; Ok (y :: ys) end.
+Definition vbools (l : list val) : option (list bool) := fold_right (fun v acc => match v, acc with VB b, Some bs => Some (b :: bs) | _, _ => None end) (Some []) l.
+Fixpoint bitmask_of (bs : list bool) : Z := match bs with [] => 0 | b :: t => (if b then 1 else 0) + 2 * bitmask_of t end.
+Fixpoint eval_prim (p:prim) (args:list val) {struct p} : res val :=
   match p, args with
+  | PMapN q, _ => match transpose_args args with Some rows => l <- mapres (eval_prim q) rows ;; Ok (VT l) | None => Stuck "mapn" end
+  | PReduce K32 o i, [VT l] => fold_left (fun acc v => a <- acc ;; match a, v with VF32 x, VF32 y => Ok (VF32 (f32_2 OP o x y)) | _, _ => Stuck "reduce" end) l (Ok (VF32 (f32_of_bits OP i)))
+  | PReduce K64 o i, [VT l] => fold_left (fun acc v => a <- acc ;; match a, v with VF64 x, VF64 y => Ok (VF64 (f64_2 OP o x y)) | _, _ => Stuck "reduce" end) l (Ok (VF64 (f64_of_bits OP i)))
+  | PSwizzle idx, [VT la] => l <- mapres (nthv la) idx ;; Ok (VT l)
+  | PSwizzle idx, [VT la; VT lb] => l <- mapres (nthv (la ++ lb)) idx ;; Ok (VT l)
+  | PAny, [VT l] => match vbools l with Some bs => Ok (VB (existsb (fun b => b) bs)) | None => Stuck "any" end
+  | PAll, [VT l] => match vbools l with Some bs => Ok (VB (forallb (fun b => b) bs)) | None => Stuck "all" end
+  | PBitmask, [VT l] => match vbools l with Some bs => Ok (VI U64 (bitmask_of bs)) | None => Stuck "bitmask" end
   | PF1 K32 o, [VF32 a] => Ok (VF32 (f32_1 OP o a)) | PF1 K64 o, [VF64 a] => Ok (VF64 (f64_1 OP o a))
   | PF2 K32 o, [VF32 a; VF32 b] => Ok (VF32 (f32_2 OP o a b)) | PF2 K64 o, [VF64 a; VF64 b] => Ok (VF64 (f64_2 OP o a b))
   | PF3 K32 o, [VF32 a; VF32 b; VF32 c] => Ok (VF32 (f32_3 OP o a b c)) | PF3 K64 o, [VF64 a; VF64 b; VF64 c] => Ok (VF64 (f64_3 OP o a b c))
